@@ -75,6 +75,7 @@ fn run(routine: &str, rest: &[String]) -> String {
         "pos_history" => public::pos_history(rest),
         "byte_formatters" => public::byte_formatters(rest),
         "time_keys" => public::time_keys(rest),
+        "time_laws" => public::time_laws(rest),
         "term_not_tty" => public::term_not_tty(rest),
         "spinner_ticks" => public::spinner_ticks(rest),
         "pos_concurrent" => public::pos_concurrent(rest),
